@@ -98,12 +98,14 @@ class CCodeMapper(SimplifyingSortingStringifyMapper):
     # {{{ mappings
 
     def map_product(self, expr, enclosing_prec):
+        import pymbolic.primitives as p
         from pymbolic.mapper.stringifier import PREC_PRODUCT
         return self.parenthesize_if_needed(
                 # Spaces prevent '**z' (times dereference z), which
                 # is hard to read.
 
-                self.join_rec(" * ", expr.children, PREC_PRODUCT),
+                self.join_rec(" * ", expr.children, PREC_PRODUCT,
+                    force_parens_around=(p.Quotient, p.FloorDiv, p.Remainder)),
                 enclosing_prec, PREC_PRODUCT)
 
     def map_constant(self, x, enclosing_prec):
